@@ -41,7 +41,8 @@ TRUSTED = [
     "pathlib: glob('**/*') lists every file and directory below the root; sorted() orders "
     "PosixPath component-wise (validated by the error-order comparison)",
 ]
-RULE = ("case = a directory tree materialised on disk (nesting <= 5; names with dots, dashes, "
+RULE = ("case = a directory tree materialised on disk, the snippets directory itself addressed "
+        "in 8 rotating ways (absolute; below hidden directories; relative with '.', '..', as '.') (nesting <= 5; names with dots, dashes, "
         "blanks, non-ASCII, leading digits, leading dots at every level; contents empty, "
         "blank-only, BOM, CRLF, CR, invalid UTF-8 of five kinds, non-ASCII white-space); "
         "non-trivial = the tree has a hidden component above a file, or an invalid key, or "
@@ -172,7 +173,14 @@ def oracle(entries, res, root):
         elif bad_key or bad_dec:
             fails.append(("offending-file-not-reported", {"expected": sorted(bad_key + bad_dec)}))
         elif got != mapping:
-            fails.append(("mapping-differs", {"expected": mapping, "loaded": got}))
+            dotted = any(c.startswith(".") for c in root["style"].split(" ")[0].split("/")) \
+                or "." in (root["path"] or "").split("/") or ".." in (root["path"] or "").split("/")
+            if not got and mapping and dotted:
+                fails.append(("files-skipped-when-the-snippets-dir-path-has-a-dot-component",
+                              {"snippets_dir": root["style"], "expected": mapping, "loaded": got}))
+            else:
+                fails.append(("mapping-differs", {"expected": mapping, "loaded": got,
+                                                  "snippets_dir": root["style"]}))
     cli = res.get("cli")
     if cli is not None:
         if "exc" in cli:
@@ -250,17 +258,42 @@ def shrink_tree(tree, failing):
     return cur
 
 
-def run_trees(ctx, trees, tag, cli=True, keys=()):
+# How the snippets directory itself is addressed: (sub-path below the tree's scratch
+# directory, working directory below it or None, path handed to the code relative to
+# that working directory or None = the absolute path). The model works on paths relative
+# to the snippets directory, so the expectation never depends on the style.
+ROOT_STYLES = [
+    ("snippets", None, None),                       # plain absolute path
+    (".hidden/dir/snippets", None, None),           # absolute, below a hidden directory
+    ("a/.b/c", None, None),                         # absolute, hidden component in the middle
+    ("snippets", "cwd", "../snippets"),             # relative with '..'
+    ("snippets", "", "./snippets"),                 # relative with '.'
+    ("snippets", "", "snippets"),                   # plain relative
+    (".config/project/snippets", ".config", "project/../project/snippets"),
+    ("deep/snippets", "deep/snippets", "."),        # the directory itself as '.'
+]
+
+
+def run_trees(ctx, trees, tag, cli=True, keys=(), styles=None):
     base = ctx.work / f"trees-{tag}"
     if base.exists():
         shutil.rmtree(base)
     roots = []
     flat = []
     for i, t in enumerate(trees):
-        root = base / f"t{i}" / "snippets"
+        sub, cwd, rel = ROOT_STYLES[(styles[i] if styles else i) % len(ROOT_STYLES)]
+        top = base / f"t{i}"
+        root = top / sub
+        os.makedirs(root.parent, exist_ok=True)
         entries = flatten(t)
         materialise(str(root), entries)
-        roots.append(str(root))
+        aux = top / "aux"
+        os.makedirs(aux)
+        if cwd is not None:
+            os.makedirs(top / cwd, exist_ok=True)
+        roots.append({"path": rel if rel is not None else str(root),
+                      "cwd": None if cwd is None else str(top / cwd), "aux": str(aux),
+                      "style": f"{sub} cwd={cwd} given={rel}"})
         flat.append(entries)
     ans = lib.impl_call("snippets.py", {"roots": roots, "cli": cli, "keys": list(keys)}, timeout=1500)
     shutil.rmtree(base, ignore_errors=True)
@@ -285,7 +318,7 @@ def streams(ctx: lib.Ctx) -> None:
         shares["exc" if "exc" in res else "err" if "err" in res else "ok"] += 1
         for key, detail in oracle(entries, res, root):
             if key not in first_fail or len(entries) < len(flatten(first_fail[key][0])):
-                first_fail[key] = (tree, detail)
+                first_fail[key] = (tree, detail, i % len(ROOT_STYLES))
         kcases = []
         if i == 0:
             kcases = [coq_pair(coq_text(k), coq_bool(b)) for k, b in zip(keys, ans["keys"])]
@@ -298,7 +331,7 @@ def streams(ctx: lib.Ctx) -> None:
     for k, b in zip(keys, ans["keys"]):
         want = all(SEG_RE.match(s) for s in k.split("/"))
         if want != b:
-            first_fail.setdefault("key-regex-differs-from-segment-rule", ([], {"key": k, "fullmatch": b}))
+            first_fail.setdefault("key-regex-differs-from-segment-rule", ([], {"key": k, "fullmatch": b}, 0))
 
     bad, _log = lib.run_cases(ctx.work, "cases", HEADER, CASE_TYPE, "bad", coq_cases, shard=40)
     for i in bad[:10]:
@@ -307,24 +340,27 @@ def streams(ctx: lib.Ctx) -> None:
                              + coq_list(coq_entry(*e) for e in flat[i]))
         ctx.corr_break("read_dir", {"tree": repr(trees[i])}, model[-1500:], ans["trees"][i])
 
-    for n_key, (key, (tree, detail)) in enumerate(sorted(first_fail.items())):
+    for n_key, (key, (tree, detail, style)) in enumerate(sorted(first_fail.items())):
         if tree and n_key < 4:
-            def failing(cands, key=key):
-                fl, an, rs = run_trees(ctx, cands, "shrink", cli=key.startswith("cli"))
+            def failing(cands, key=key, style=style):
+                fl, an, rs = run_trees(ctx, cands, "shrink", cli=key.startswith("cli"),
+                                       styles=[style] * len(cands))
                 return [any(k == key for k, _ in oracle(e, r, ro))
                         for e, r, ro in zip(fl, an["trees"], rs)]
             tree = shrink_tree(tree, failing)
-            fl, an, rs = run_trees(ctx, [tree], "shrunk", cli=True)
+            fl, an, rs = run_trees(ctx, [tree], "shrunk", cli=True, styles=[style])
             det = next((d for k, d in oracle(fl[0], an["trees"][0], rs[0]) if k == key), detail)
         else:
             det = detail
         ctx.impl_failure(key, f"snippet directory not loaded as specified ({key})",
-                         {"tree (name, bytes | [children])": repr(tree)}, det, "read_dir",
+                         {"tree (name, bytes | [children])": repr(tree),
+                          "snippets_dir (sub-path, cwd, path given)": ROOT_STYLES[style]}, det, "read_dir",
                          "materialise the tree and call aas_core_codegen.specific_implementations."
                          "read_from_directory(pathlib.Path(root)) / aas-core-codegen --snippets_dir root")
 
     ctx.count("read_dir", len(trees), nontrivial_keys=nontrivial, validated=len(trees), **shares,
-              cli_runs=len(trees), max_nesting=5)
+              cli_runs=len(trees), max_nesting=5,
+              root_styles=[f"{a} cwd={b} given={c}" for a, b, c in ROOT_STYLES])
     ctx.count("key_regex", len(keys), validated=len(keys),
               accepted=sum(1 for b in ans["keys"] if b))
     for t in trees[:2] + trees[10:13]:
